@@ -5,7 +5,7 @@ SPEC = {
     "props": "theories/Combine/Props_C19.v",
     "harness": [{"bin": "h_combine", "n": {"quick": 400, "thorough": 3000}, "args": ["--stream", "c19"],
                  "known_bits": {}}],
-    "rule": "directed degenerate segment sets (all-zero interface ids, empty / single-entry / oversize segments, out-of-range MTUs, cross-wired peers, same segment as core and non-core), structural mutations of segment sets beaconed from small topologies, and random segment soup up to 25 (thorough: 40) segments; a case is non-trivial when it has at least one segment; distinct by full case text",
+    "rule": "directed degenerate segment sets (all-zero interface ids, empty / single-entry / oversize segments, out-of-range MTUs, cross-wired peers, same segment as core and non-core), structural mutations of segment sets beaconed from small topologies, AS entries with 2-4 peer entries (zero-interface, duplicate, dangling, self-referring ones before / between / after the usable one; directed enumeration d13 plus random placement on peering topologies), valid sets with appended junk segments (oversize / unencodable, foreign, all-zero, empty; with a reference run on the valid set), and random segment soup up to 25 (thorough: 40) segments; a case is non-trivial when it has at least one segment; distinct by full case text",
     "assumptions": ["usize/u64 arithmetic on list lengths does not wrap (fewer than 2^64 AS entries)",
                     "slice::sort_by is a stable sort (modelled as insertion sort)",
                     "SegmentID order is taken from the implementation's SHA-256; fingerprints are compared structurally"],
